@@ -12,6 +12,9 @@ def c01(tier, seed):
         MC("MC_Merge", dict(UA=u, UB=u, FieldPaths="<-FP_None"), invariants=C01_INV, label="MC_Merge/C01"),
         GEN("Gen_Merge", dict(UA=u, UB=u, PolSet="<-Pols", FosSet="<-FosNone"), "merge",
             replay_args=["--reprs", "map,struct,cfg"], label="Gen_Merge/pairs", min_cases=100000),
+        # the source holds a REFERENCE to one of its own lists / dictionaries where the destination has a container
+        GEN("Gen_Merge", dict(UA="<-U_FhtSmall", UB="<-U_FhtRef", PolSet="<-Pols", FosSet="<-FosNone"), "merge",
+            replay_args=["--reprs", "map,cfg"], label="Gen_Merge/references-to-containers", min_cases=1000),
         TRACE("Trace_Merge", "merge", n=3000 if q else 40000, label="Trace_Merge/random"),
     ]
 
@@ -26,6 +29,12 @@ def c16(tier, seed):
            dev={"PolicyTreeNotDescended"}, expect_violation=True, label="MC_Merge/C16-refute-deviation"),
         GEN("Gen_Merge", dict(UA=ua, UB="<-U_FhtSmall", PolSet="<-PolsTwo" if q else "<-Pols", FosSet="<-FosAll"),
             "merge", replay_args=["--reprs", "map"], label="Gen_Merge/fieldopts", min_cases=100000),
+        # the value at the per-field path is a REFERENCE to a list / dictionary of the source (variable expansion on)
+        GEN("Gen_Merge", dict(UA="<-U_FhtSmall", UB="<-U_FhtRef", PolSet="<-Pols", FosSet="<-FosAll"),
+            "merge", replay_args=["--reprs", "map,cfg"], label="Gen_Merge/fieldopts-on-references", min_cases=10000),
+        # per-field paths through a list index (a.1, a.1.0, a.1 + a.b) over lists of lists / dictionaries
+        GEN("Gen_Merge", dict(UA="<-U_FhtIdx", UB="<-U_FhtIdx", PolSet="<-Pols", FosSet="<-FosIdx"),
+            "merge", replay_args=["--reprs", "map"], label="Gen_Merge/fieldopts-through-indices", min_cases=2000),
         TRACE("Trace_Merge", "merge", drive_args=["--fieldopts"], n=3000 if q else 40000,
               label="Trace_Merge/fieldopts"),
     ]
@@ -47,7 +56,10 @@ CTX_DEVS = ["DetachKeepsCtx", "SetCtxOnlyIfEmpty", "CopyKeepsStoredFld"]
 def store_stages(tier, comps, trace_comps, mc_inv, mc_props, refute, only_devs, mc_universe="core", gen_core=True,
                  merge_depth=(2, 3)):
     q = tier == "quick"
-    core = dict(STORE_CORE, MaxOps=3 if q else 4)
+    # depth 4 of the core universe was measured: MC_Store does not finish within 45 minutes on 16 cores (> 250 CPU-minutes),
+    # so both tiers explore depth 3 exhaustively; the thorough tier deepens the list-churn universe, the merge universe
+    # and the number of random sessions instead
+    core = dict(STORE_CORE, MaxOps=3)
     mrg = dict(STORE_MERGE, MaxOps=merge_depth[0] if q else merge_depth[1])
     mcu = dict(core if mc_universe == "core" else dict(STORE_MERGE, MaxOps=2 if q else 3), TreeOnly=True)
     st = [MC("MC_Store", mcu, invariants=mc_inv, properties=mc_props, spec="Spec", label="MC_Store/ideal")]
@@ -92,6 +104,9 @@ def c10(tier, seed):
     u = "<-U_Tiny" if q else "<-U_Quick"
     st.append(GEN("Gen_Merge", dict(UA=u, UB=u, PolSet="<-Pols", FosSet="<-FosNone"), "merge",
                   replay_args=["--reprs", "cfg", "--check-source"], label="Gen_Merge/source-untouched", min_cases=1000))
+    # ... also for settings that hold ${...}: source and destination read in both orders, writes on either side
+    st.append(GEN("Gen_VarShare", dict(NameTab="<-TabShare", Groups="={}"), "varshare", known_const=None,
+                  label="Gen_VarShare/copies-of-one-setting", min_cases=8))
     return st
 
 
@@ -129,6 +144,9 @@ def c09(tier, seed):
         # settings that reference each other: create + Unpack of the whole config, repeated; the per-call cache and
         # the active set are shared between the fields, which the runtime visits in a fresh random order every time
         varexp_gen(tier, label="Gen_VarExp/unpack-orders", extra=["--repeat", "6" if q else "16", "--every", "2" if q else "1"]),
+        # nodes with named AND indexed entries, plain dictionaries and plain lists whose two settings fail in different ways
+        GEN("Gen_VarMixed", dict(NameTab="<-TabMixed"), "varexp", replay_args=["--repeat", "12" if q else "40"],
+            label="Gen_VarMixed/unpack-orders", min_cases=500),
     ]
 
 
@@ -192,6 +210,10 @@ def c02(tier, seed):
         MC("Gen_VarExp", VAR_MC, invariants=["NoSilentEmpty", "LookupOrder"], label="MC_VarExp/lookup-order"),
         varexp_gen(tier),
         varexp_gen("quick", label="Gen_VarExp/late-binding", extra=["--split-merge", "--every", "3" if tier == "quick" else "1"]),
+        GEN("Gen_VarMixed", dict(NameTab="<-TabMixed"), "varexp", label="Gen_VarMixed/node-shapes", min_cases=500),
+        # settings with ${...} that are copies of one another (merged / embedded *Config): each is evaluated in ITS tree
+        MC("Gen_VarShare", dict(NameTab="<-TabShare", Groups="={}"), invariants=["Independent"], label="MC_VarShare/independent"),
+        GEN("Gen_VarShare", dict(NameTab="<-TabShare", Groups="={}"), "varshare", known_const=None, label="Gen_VarShare/copies-of-one-setting", min_cases=8),
     ]
 
 
@@ -203,6 +225,7 @@ def c08(tier, seed):
            label="MC_Steps/refute-FlattenFreshActiveSet"),
         MC("Gen_VarExp", VAR_MC, invariants=["NoFalseCycle", "FlattenReturns"], label="MC_VarExp/no-false-cycle"),
         varexp_gen(tier),
+        GEN("Gen_VarMixed", dict(NameTab="<-TabMixed"), "varexp", label="Gen_VarMixed/node-shapes", min_cases=500),
     ]
 
 
@@ -232,11 +255,18 @@ def reify_stages(inv, refute):
 
 
 def c04(tier, seed):
-    return reify_stages(["OkIsValid"], [("PtrDefaultSkipsRange", ["OkIsValid"]), ("UncheckedCarriedOver", ["OkIsValid"])])
+    return reify_stages(["OkIsValid"], [("PtrDefaultSkipsRange", ["OkIsValid"]), ("UncheckedCarriedOver", ["OkIsValid"])]) + [
+        MC("Gen_Validators", dict(Groups="={}"), invariants=["OkIsValid", "BreakFails"], label="MC_Validators/table"),
+        GEN("Gen_Validators", {}, "validators", label="Gen_Validators/kinds-x-tags-x-defaults-x-settings", min_cases=4000),
+    ]
 
 
 def c13(tier, seed):
-    return reify_stages(["Frame"], [])
+    return reify_stages(["Frame"], []) + [
+        # which merge policy is ACTIVE for a list: global option vs. struct tags at two levels (a tag wins, also `merge`)
+        MC("Gen_TagPol", dict(Groups="={}"), invariants=["TagWins"], label="MC_TagPol/active-policy"),
+        GEN("Gen_TagPol", {}, "tagpol", label="Gen_TagPol/global-x-tags-x-lists", min_cases=500),
+    ]
 
 
 def c14(tier, seed):
